@@ -42,6 +42,20 @@ func init() {
 
 var apkSufNames = []string{"alpha", "beta", "pre", "rc", "cvs", "svn", "git", "hg", "p"}
 
+// apkCounter draws a suffix number or revision: mostly small, sometimes written with leading zeros (apk reads them as
+// decimal numbers), sometimes a date/timestamp or a value around 2^32, 2^48, 2^53 and the largest 18-digit number.
+func apkCounter(rt *rapid.T, l string) string {
+	switch k := rapid.IntRange(0, 9).Draw(rt, l+"ck"); {
+	case k < 7:
+		return gen.SmallNum(rt, l)
+	case k == 7:
+		return gen.Pick(rt, l, "00", "01", "07", "08", "09", "010", "011", "0100", "007", "0010")
+	default:
+		return gen.Pick(rt, l, "20200101", "20240229", "20240229123456", "20240229123457", "4294967295", "4294967296", "4294967297", "281474976710655", "281474976710656", "281474976710657",
+			"1125899906842624", "9007199254740992", "9007199254740993", "300000000000000", "999999999999999999", "999999999999999998")
+	}
+}
+
 func apkVersion(rt *rapid.T, l string, ncomp int) string {
 	var sb strings.Builder
 	parts := make([]string, ncomp)
@@ -56,11 +70,11 @@ func apkVersion(rt *rapid.T, l string, ncomp int) string {
 	for i := 0; i < ns; i++ {
 		sb.WriteString("_" + gen.Pick(rt, fmt.Sprintf("%ss%d", l, i), apkSufNames...))
 		if gen.Chance(rt, fmt.Sprintf("%sh%d", l, i), 2, 3) {
-			sb.WriteString(gen.SmallNum(rt, fmt.Sprintf("%sv%d", l, i)))
+			sb.WriteString(apkCounter(rt, fmt.Sprintf("%sv%d", l, i)))
 		}
 	}
 	if gen.Chance(rt, l+"R", 1, 3) {
-		sb.WriteString("-r" + gen.SmallNum(rt, l+"r"))
+		sb.WriteString("-r" + apkCounter(rt, l+"r"))
 	}
 	return sb.String()
 }
@@ -101,10 +115,14 @@ func apkNeighbor(rt *rapid.T, a string) string {
 	case 5:
 		if len(sufs) > 0 {
 			i := rapid.IntRange(0, len(sufs)-1).Draw(rt, "si")
-			sufs[i] = strings.TrimRight(sufs[i], "0123456789") + gen.Pick(rt, "sn", "", "0", "1", "2", "10")
+			if gen.Chance(rt, "snbig", 1, 3) {
+				sufs[i] = strings.TrimRight(sufs[i], "0123456789") + apkCounter(rt, "snc")
+			} else {
+				sufs[i] = strings.TrimRight(sufs[i], "0123456789") + gen.Pick(rt, "sn", "", "0", "1", "2", "10")
+			}
 		}
 	case 6:
-		rev = gen.Pick(rt, "rv", "", "-r1", "-r2", "-r10")
+		rev = gen.Pick(rt, "rv", "", "-r1", "-r2", "-r10", "-r010", "-r09", "-r4294967296")
 	default:
 		if len(sufs) > 1 {
 			sufs[0], sufs[1] = sufs[1], sufs[0]
